@@ -423,6 +423,20 @@ func (fx *loopFx) storeTarget(addr ssa.Value, subst map[ssa.Value]ssa.Value) {
 				return
 			}
 		}
+		{
+			// element of an array allocated inside the loop (e.g. the varargs array of an append)
+			w := x.X
+			for i := 0; i < 8; i++ {
+				if u, ok := subst[w]; ok {
+					w = u
+					continue
+				}
+				break
+			}
+			if _, isAlloc := w.(*ssa.Alloc); isAlloc {
+				return
+			}
+		}
 		fx.havocArraysOf("M", elemKey(et), target, path)
 	case *ssa.Global:
 		fx.havocArraysOf("G", x.Pkg.Pkg.Path()+"."+x.Name(), target, path)
@@ -483,6 +497,11 @@ func (fx *loopFx) callEffects(call *ssa.CallCommon, subst map[ssa.Value]ssa.Valu
 		case "delete":
 			fx.mapTarget(call.Args[0], subst)
 		case "append", "copy":
+			if b.Name() == "append" && fx.loopFreshSlice(call.Args[0], map[ssa.Value]bool{}) {
+				// appending to a slice whose backing array can only have been allocated inside this
+				// loop (it starts as nil at every entry): no memory visible at the loop head changes
+				return
+			}
 			if stt, ok := call.Args[0].Type().Underlying().(*types.Slice); ok {
 				for _, lf := range leavesOf(stt.Elem()) {
 					c.heapHavoc(st, arrName("M", elemKey(stt.Elem()), lf.Path, lf.Sort))
@@ -601,11 +620,11 @@ func (c *FnCtx) havocModCoarse(st *State, callee *ssa.Function, fc *FuncContract
 				c.errs = append(c.errs, "modifies (coarse): "+err.Error())
 				continue
 			}
-			pt, ok := obj.T.Underlying().(*types.Pointer)
+			owner, ok := fieldOwner(obj)
 			if !ok {
 				continue
 			}
-			ft, ghost := c.fieldType(pt.Elem(), m.Name)
+			ft, ghost := c.fieldType(owner, m.Name)
 			if ft == nil {
 				continue
 			}
@@ -614,7 +633,7 @@ func (c *FnCtx) havocModCoarse(st *State, callee *ssa.Function, fc *FuncContract
 				path = "$" + m.Name
 			}
 			for _, lf := range leavesOf(ft) {
-				c.heapHavoc(st, arrName("F", typeName(pt.Elem()), joinPath(path, lf.Path), lf.Sort))
+				c.heapHavoc(st, arrName("F", typeName(owner), joinPath(path, lf.Path), lf.Sort))
 			}
 		case "map":
 			mv, err := c.eval(env, m.Expr)
